@@ -1028,6 +1028,9 @@ class Exec:
             return EnumV(vi, ((vi, fields),), dty or ename)
         if not dh:
             return AggV(fields, path)
+        if not fields and vs is None:
+            # unit variant of an enum defined outside /repo: an opaque tag
+            return OpaqueV("enumconst." + sanitize(path), dty)
         raise Unsupported(f"aggregate `{path}` for type `{dty}`")
 
     def discriminant(self, v, dty):
